@@ -40,7 +40,7 @@ class MeshBuild:
         self.versions = []          # (input name, value assigned to xf)
         self.nlin = 0
         self.it.on_setattr = self.on_setattr
-        self.it.np_hooks = {"linspace": self.linspace, "append": self.append, "builtin:int": self.int_, "builtin:round": self.round_}
+        self.it.np_hooks = {"linspace": self.linspace, "append": self.append, "builtin:int": self.int_, "builtin:round": self.round_, "arange": self.arange}
         self.ncell_atom = A.sym("ncell", positive=True)
         self.it.size_atom = self.ncell_atom
         self.params = {}
@@ -99,6 +99,22 @@ class MeshBuild:
             arr.faceseq = seq
             return arr
         return seq
+
+    def arange(self, args, kwargs):
+        """np.arange over integers is an index range; with a non-integer start / stop / step the NUMBER of
+        entries is ceil((stop-start)/step) evaluated in floating point -- decided by rounding (numpy's own
+        documentation: "the length of the output might not be numerically stable")"""
+        from .interp import RangeSym
+        if len(args) == 1 and isinstance(args[0], NLin) and not kwargs:
+            return RangeSym(args[0])
+        if all(isinstance(a, (int, NLin)) for a in args) and not kwargs:
+            if all(isinstance(a, int) for a in args):
+                return list(range(*args))
+            raise AnalysisError("np.arange over an unsupported integer range")
+        e = AnalysisError("mesh.%s: np.arange with a non-integer step" % self.cls.name)
+        e.violation = ("MESH-COUNT", self.cls.qualname, "the face array is built by np.arange with non-integer arguments: its number of entries is ceil((stop-start)/step) evaluated in floating point, i.e. decided by rounding -- for some (ncell, length) there is one face too many (ncell+2 faces, the last beyond x0+length) or one too few; np.linspace(start, stop, ncell+1) fixes the count",
+                       "float-arange", {"C20"})
+        raise e
 
     def append(self, args, kwargs):
         a, b = args
